@@ -125,37 +125,48 @@ func applyJSONOperation(docBytes []byte, op json.RawMessage) (result []byte, err
 		}
 	}()
 
-	var fields struct {
-		Op   string  `json:"op"`
-		From *string `json:"from"`
-		Path *string `json:"path"`
-	}
+	// member names are matched exactly, as the JSON patch library and the patch validator do
+	var fields map[string]json.RawMessage
 
 	err = json.Unmarshal(op, &fields)
 	if err != nil {
 		return nil, err
 	}
 
+	var kind string
+
+	if kindMsg, ok := fields["op"]; ok {
+		if e := json.Unmarshal(kindMsg, &kind); e != nil {
+			return nil, e
+		}
+	}
+
 	steps := []interface{}{op}
 
-	if fields.Op == "move" || fields.Op == "copy" {
-		if fields.From == nil || fields.Path == nil {
-			return nil, fmt.Errorf("jsonpatch %s operation requires from and path", fields.Op)
+	if kind == "move" || kind == "copy" {
+		var from, path string
+
+		if e := json.Unmarshal(fields["from"], &from); e != nil {
+			return nil, fmt.Errorf("jsonpatch %s operation requires from: %w", kind, e)
 		}
 
-		value, e := getJSONPointerValue(docBytes, *fields.From)
+		if e := json.Unmarshal(fields["path"], &path); e != nil {
+			return nil, fmt.Errorf("jsonpatch %s operation requires path: %w", kind, e)
+		}
+
+		value, e := getJSONPointerValue(docBytes, from)
 		if e != nil {
-			return nil, fmt.Errorf("jsonpatch %s operation does not apply: %w", fields.Op, e)
+			return nil, fmt.Errorf("jsonpatch %s operation does not apply: %w", kind, e)
 		}
 
-		steps = []interface{}{map[string]interface{}{"op": "add", "path": *fields.Path, "value": value}}
+		steps = []interface{}{map[string]interface{}{"op": "add", "path": path, "value": value}}
 
-		if fields.Op == "move" {
-			if strings.HasPrefix(*fields.Path, *fields.From+"/") {
-				return nil, fmt.Errorf("jsonpatch move operation does not apply: cannot move '%s' into its own child", *fields.From)
+		if kind == "move" {
+			if strings.HasPrefix(path, from+"/") {
+				return nil, fmt.Errorf("jsonpatch move operation does not apply: cannot move '%s' into its own child", from)
 			}
 
-			steps = append([]interface{}{map[string]interface{}{"op": "remove", "path": *fields.From}}, steps...)
+			steps = append([]interface{}{map[string]interface{}{"op": "remove", "path": from}}, steps...)
 		}
 	}
 
